@@ -381,7 +381,7 @@ def main(ctx):
     corpus = sorted(glob.glob(os.path.join(common.REPO, "example", "test", "*.nmfu")))
     ctx.pmap(fixed_worker, [(open(p).read(), a, known) for p in corpus for a in ([], ["-O3", "-feof-support", "-fyield-support"])])
     n = 1200 if quick else 12000
-    stop_at = time.time() + (70 if quick else 1500)
+    stop_at = time.time() + (70 if quick else 900)
     ctx.pmap(worker, [(ctx.seed * 100003 + i, n, known, stop_at, ("wild", "wild", "mutated", "typed")[i % 4]) for i in range(common.NPROC)])
     ctx.rule = ("case = (source text from an untyped grammar-based generator [3/4] or from the typed program generator with the lookahead constraint "
                 "relaxed [1/4, half of them with one identifier / operator mutated], option set from a list of odd-but-legal mixes); evaluations = compilations. Non-trivial: source reaching an error path "
